@@ -92,6 +92,8 @@ def gen_case(rng, actions, max_ops, stream):
         q = {'schema_ok': not (odd and rng.random() < 0.08), 'dialect_ok': not (odd and rng.random() < 0.1),
              'filter': filt(), 'expires': dur(), 'notify': rng.randrange(c['nsinks']),
              'end': rng.choice([None, None] + list(range(c['nsinks']))), 'cons_ref': rng.random() < 0.4}
+        if not q['schema_ok']:       # how the request is broken: all variants must be refused without any effect
+            q['bad'] = rng.choice(['delivery', 'days', 'negative', 'datetime', 'garbage'])
         ops.append(['sub', q])
         if q['schema_ok'] and (q['dialect_ok'] or c['async']) and q['filter'] is not None:
             e = q['expires']
@@ -634,8 +636,8 @@ def run(ctx):
     if not proof_ok:
         ctx.broken('theorem', 'Props/C08.v', ctx.proof_error)
     hist = Counter()
-    plan = [('life', ctx.n(260, 3200), ctx.n(16, 60)), ('malformed', ctx.n(110, 1200), ctx.n(16, 50)),
-            ('decimal', ctx.n(60, 600), ctx.n(16, 50))]
+    plan = [('life', ctx.n(260, 2000), ctx.n(16, 40)), ('malformed', ctx.n(110, 800), ctx.n(16, 40)),
+            ('decimal', ctx.n(60, 500), ctx.n(16, 40))]
     import time as _time
     for stream, ncases, max_ops in plan:
         t_0 = _time.time()
@@ -681,7 +683,7 @@ def run(ctx):
             ctx.sample({'stream': stream, 'case': cases[0],
                         'trace': [[e['resp'], [h['m'] for h in e['handed']]] for e in traces[0]]})
     t_0 = _time.time()
-    e2e = [gen_e2e(ctx.rng, ctx.n(10, 20)) for _ in range(ctx.n(24, 300))]
+    e2e = [gen_e2e(ctx.rng, ctx.n(10, 20)) for _ in range(ctx.n(24, 200))]
     traces, crash = run_impl(ctx, e2e, workers=ctx.n(6, 8))
     if crash:
         ctx.broken('correspondence', 'e2e', crash.get('stderr', crash))
